@@ -16,7 +16,8 @@ from vf.common import farm, finish
 
 PROP = 'C15'
 ACT = reorgrun.ACTIVATION
-BASE = ['cb', 'fan', 'chain2', 'old', 'new', 'multi', 'self', 'old', 'new', 'chain2', 'multi', 'old']
+# (heights 8 and 11 are coinbase-only blocks: their undo information exists but is empty)
+BASE = ['cb', 'fan', 'chain2', 'old', 'new', 'multi', 'self', 'cb', 'new', 'chain2', 'cb', 'old']
 LIMITS = (1, 2, 3, 5, 50)
 
 
